@@ -1094,14 +1094,27 @@ func (dc *ClientDnsConnection) RemoteAddr() net.Addr {
 	return dc.Communicator.RemoteAddr()
 }
 
+// SetDeadline bounds Read and Write of the tunnelled stream (they wait on the queues, not on the communicator's socket)
 func (dc *ClientDnsConnection) SetDeadline(t time.Time) error {
+	if err := dc.in.SetReadDeadline(t); err != nil {
+		return err
+	}
+	if err := dc.out.SetWriteDeadline(t); err != nil {
+		return err
+	}
 	return dc.Communicator.SetDeadline(t)
 }
 
 func (dc *ClientDnsConnection) SetReadDeadline(t time.Time) error {
+	if err := dc.in.SetReadDeadline(t); err != nil {
+		return err
+	}
 	return dc.Communicator.SetReadDeadline(t)
 }
 
 func (dc *ClientDnsConnection) SetWriteDeadline(t time.Time) error {
+	if err := dc.out.SetWriteDeadline(t); err != nil {
+		return err
+	}
 	return dc.Communicator.SetWriteDeadline(t)
 }
